@@ -193,8 +193,10 @@ class ConnectionState:
         resp.add_untagged(FlagsResponse(mailbox.flags))
         resp.add_untagged(ExistsResponse(messages.exists))
         resp.add_untagged(RecentResponse(num_recent))
-        resp.add_untagged_ok(b'Predicted next UID.',
-                             UidNext(mailbox.next_uid))
+        # the view is loaded after the snapshot, a message added in between
+        # is part of EXISTS and must be below UIDNEXT as well
+        next_uid = max(mailbox.next_uid, messages.max_uid + 1)
+        resp.add_untagged_ok(b'Predicted next UID.', UidNext(next_uid))
         resp.add_untagged_ok(b'UIDs valid.',
                              UidValidity(mailbox.uid_validity))
         if mailbox.first_unseen:
